@@ -2,7 +2,7 @@
    point, established by exhaustive evaluation inside Coq (vm_compute over all
    2^21 candidates; this file takes about a minute to compile and is separate so
    that it is compiled once). *)
-From verif Require Import lib.Base lib.Utf8 model.C13.
+From verif Require Import lib.Base lib.Utf8.
 Open Scope N_scope.
 
 (* ---------- a checked fact about every code point, by exhaustive evaluation ---------- *)
@@ -38,7 +38,7 @@ Definition rune_ok (r : N) : bool :=
   && match e with
      | b0 :: cs =>
        rune_start b0 && forallb is_cont cs && Nat.leb (length cs) 3
-       && Bool.eqb (b0 <? 128)%N (is_nil cs)
+       && Bool.eqb (b0 <? 128)%N (match cs with [] => true | _ => false end)
      | [] => false
      end
   && forallb (fun j => Nat.leb (length e) j || pair_eqb (decode_rune (firstn j e)) (RuneError, 1%nat))
